@@ -27,9 +27,11 @@ def scenarios(tier):
     q = tier == "quick"
     w = dict(prop="C08", monitors=(), regions=["R"], emax=1, key_depth=False)
     out = []
+    # a home offset set (in millimetres) before the units change: it is the same physical offset afterwards
+    m206 = ("RAW", "M206 Z0.25")     # Z only: the reference printers do not model home offsets, X/Y offsets would move the region tests
     for T in ("inch", "rel", "translate"):
-        out.append(Scenario("c08-" + T, ProductWorld, dict(prop="C08", T=T, world=w),
-                            ((PATH_INCH if T == "inch" else PATH) + [("HOME", "XY"), ("HOME", "W")]) if T != "translate" else PATH[:-1],
+        out.append(Scenario("c08-" + T, ProductWorld, dict(prop="C08", T=T, world=w, pre_switch_only=(m206,)),
+                            ((PATH_INCH + [m206] if T == "inch" else PATH) + [("HOME", "XY"), ("HOME", "W")]) if T != "translate" else PATH[:-1],
                             max_depth=(5 if q else 8) if T != "translate" else (7 if q else 9), max_states=3000000))
     out.append(Scenario("c08-g92", ProductWorld, dict(prop="C08", T="g92", world=w), PATH, max_depth=4 if q else 6,
                         max_states=3000000, finding="D16", note="dedicated to known finding D16 (G92 X/Y/Z offset sign)"))
